@@ -101,10 +101,10 @@ def accepts(crit, v):
     if k == 'emptytext':
         # a text like any other under a numeric criterion (never a number: only <> accepts it); under text criteria and
         # patterns the statement is silent about the empty text
-        if form in ('num', 'eq-num', 'op-num', 'amp-num'):
+        if form in ('num', 'eq-num', 'op-num', 'amp-num', 'text-num'):
             return crit.get('op', '=') == '<>'
         raise Skip('empty text under a text criterion')
-    if form in ('num', 'eq-num', 'op-num', 'amp-num'):
+    if form in ('num', 'eq-num', 'op-num', 'amp-num', 'text-num'):
         if k == 'blank':
             raise Skip('blank under numeric criterion')
         if k == 'text':
@@ -146,6 +146,9 @@ def crit_text(crit, cellref=None):
         return f'"{v}"'
     if form == 'eq-num':
         return f'"={v!r}"'
+    if form == 'text-num':
+        # a text that denotes a number ("3", "-3", "+2.5") selects the cells that hold this number
+        return f'"{"+" if crit.get("plus") and v >= 0 else ""}{v!r}"'
     if form == 'op-num':
         return f'"{crit["op"]}{v!r}"'
     if form == 'amp-num':
@@ -350,10 +353,10 @@ def strategy():
                 n = draw(st.one_of(st.sampled_from(present_nums) if present_nums else num, num))
                 via = draw(st.sampled_from(['lit', 'lit', 'cell']))
                 choices += [{'form': 'num', 'value': n, 'via': via}] * 2
-                choices += [{'form': 'op-num', 'op': draw(st.sampled_from(['>', '<', '>=', '<=', '<>'])), 'value': n if n >= 0 else -n},
+                choices += [{'form': 'op-num', 'op': draw(st.sampled_from(['>', '<', '>=', '<=', '<>'])), 'value': n},
                             {'form': 'amp-num', 'op': draw(st.sampled_from(['>', '<', '>=', '<=', '<>'])), 'value': n}]
-                choices += [{'form': 'op-num', 'op': draw(st.sampled_from(['>', '<', '>=', '<=', '<>'])), 'value': n if n >= 0 else -n},
-                            {'form': 'eq-num', 'value': n if n >= 0 else -n},
+                choices += [{'form': 'op-num', 'op': draw(st.sampled_from(['>', '<', '>=', '<=', '<>'])), 'value': n},
+                            {'form': 'eq-num', 'value': n}, {'form': 'text-num', 'value': n, 'plus': draw(st.booleans())},
                             {'form': 'amp-num', 'op': draw(st.sampled_from(['>', '<', '>=', '<=', '<>'])), 'value': n}]
             if fl in ('text', 'mixed', 'text+blank'):
                 t = draw(st.one_of(st.sampled_from(present_txt) if present_txt else word, word))
